@@ -6,6 +6,8 @@ package file
 
 import (
 	"os"
+	"path/filepath"
+	"strings"
 	"sync"
 	"testing"
 
@@ -27,7 +29,8 @@ func init() {
 // TestReplay re-runs stored cases (regress tier, bin/vcheck --replay).
 func TestReplay(t *testing.T) {
 	defer vkit.WriteStats()
-	verifSetup()
+	defer verifTempCleanup()
+	verifRequire(t)
 	vkit.Replay(t)
 }
 
@@ -51,4 +54,49 @@ func verifSetup() {
 			ctl.RegisterGauge("verif_worker4", "h"),
 		)
 	})
+}
+
+var (
+	verifTmpOnce sync.Once
+	verifTmpBase string
+)
+
+// verifTempDir creates a fresh directory for one case. The base lives on tmpfs when there is one:
+// the checks judge what file.d asks the kernel to do (order of write/fsync/rename, bytes read), not
+// the latency of a shared disk whose journal stalls for minutes when other builds run; fsync on tmpfs
+// is still a traced syscall. VERIF_TMP_ON_DISK=1 forces os.TempDir().
+func verifTempDir(prefix string) string {
+	verifTmpOnce.Do(func() {
+		root := os.TempDir()
+		if st, err := os.Stat("/dev/shm"); err == nil && st.IsDir() && os.Getenv("VERIF_TMP_ON_DISK") == "" {
+			root = "/dev/shm"
+		}
+		if w := os.Getenv("VERIF_WORK"); w != "" && root == "/dev/shm" {
+			// one base per shard work dir, wiped when the shard runs again (a killed run leaves nothing behind for long)
+			b := filepath.Join(root, "verif"+strings.ReplaceAll(w, "/", "_"))
+			_ = os.RemoveAll(b)
+			if os.MkdirAll(b, 0o700) == nil {
+				verifTmpBase = b
+				return
+			}
+		}
+		b, err := os.MkdirTemp(root, "verif-file-")
+		if err != nil {
+			verifInfra("temp base: %v", err)
+		}
+		verifTmpBase = b
+	})
+	_ = os.MkdirAll(verifTmpBase, 0o700)
+	d, err := os.MkdirTemp(verifTmpBase, prefix)
+	if err != nil {
+		verifInfra("mkdtemp: %v", err)
+	}
+	return d
+}
+
+// verifTempCleanup removes the base; deferred by every TestVerif* function.
+func verifTempCleanup() {
+	if verifTmpBase != "" {
+		_ = os.RemoveAll(verifTmpBase)
+	}
 }
